@@ -1225,6 +1225,8 @@ def _interp_actions(fr):
             fq = [p.split('=', 1) for p in fr['form'].split('&')] if fr['form'] else []
             cq = _cookie_pairs(fr)
             want = dict(forms=sorted(fq), cookies=sorted(cq), body=fr['form'] or '')
+            if fr.get('too_big'):
+                want = dict(error='HTTPError')          # reading the forms of an oversize body is refused
             fr['log'].append(dict(kind='form', tok=fr['tok'], got=got, want=want))
         elif kind == 'redirect':
             # ombott.redirect(target) (ends the script): 303 to the target resolved against THIS request's URL
@@ -1432,6 +1434,11 @@ def do_call(apps, call, log, environ=None, path=None):
     fr['route_kind'] = route
     fr['inject'] = call.get('inject')
     fr['w_cfg'] = _cfg_view(apps[j])
+    limit = getattr(apps[j].config, 'max_body_size', None)
+    if environ is None and form and limit is not None and len(form.encode('latin1')) > limit \
+            and not (call.get('chunked_bad') or call.get('json_bad') or call.get('json_nonobj')):
+        # the application is configured to refuse a body of this size (413), alone as well as together
+        fr['too_big'] = True
     if environ is None and call.get('route', 'r') in ('g405', 'nope404', 'h404hook', 'badpath'):
         # the scripted handler is not reached: the framework answers by itself
         fr['handler_runs'] = False
@@ -1927,6 +1934,13 @@ def run_arrangement(case):
     napps, use_default, max_body = case['napps'], case.get('default', False), _case_cfg(case)
     solo = []
     solo_steps_ = []
+    if case.get('_solo'):
+        # (batch jobs carry the served-alone records of their scenario)
+        solo, solo_steps_ = case['_solo']
+        out = _main_run(case, solo_steps_)
+        out['solo'] = solo
+        out['steps'] = solo_steps_
+        return out
     for i, call in enumerate(case['calls']):
         if case.get('ctx_copy'):
             call = dict(call, ctx_copy=True)       # (the baseline runs in the same kind of worker)
@@ -2163,27 +2177,43 @@ def _batch_worker(args):
     return len(scheds), bad
 
 
+_POOL = [None]
+
+
+def _pool():
+    """one pool of small worker processes for all batches of a run (started from a fork server, not forked from the
+    checking process, whose memory grows with the cases it has evaluated)"""
+    if _POOL[0] is None:
+        import atexit
+        import multiprocessing
+        ctx = multiprocessing.get_context('forkserver')
+        nproc = max(1, min(12, (os.cpu_count() or 2) - 2))
+        _POOL[0] = ctx.Pool(nproc)
+        atexit.register(_POOL[0].terminate)
+    return _POOL[0]
+
+
 def run_batch(case, base):
     """case: dict(kind='batch', preempt=k, lo=..., hi=...) ; base: the arrangement (no schedule). The schedules run in
-    worker processes of THIS process (applications reused); a failing schedule is remembered as an ordinary
-    arrangement case (absolute switches) for shrink()."""
-    import multiprocessing
+    worker processes (applications reused, the served-alone records handed over with the job); a failing schedule is
+    remembered as an ordinary arrangement case (absolute switches) for shrink()."""
     base = dict(base, abs=True, reuse=True)
-    steps = run_arrangement(dict(base, reuse=False, start=0, switches=[]))['steps']
+    first = run_arrangement(dict(base, reuse=False, start=0, switches=[]))
+    steps = first['steps']
     ek = (json.dumps(base, sort_keys=True), tuple(steps), case['preempt'])
     if ek not in _ENUM:
         _ENUM.clear()
         _ENUM[ek] = enumerate_schedules(steps, case['preempt'])
     part = _ENUM[ek][case.get('lo', 0):case.get('hi')]
+    job_base = dict(base, _solo=[first['solo'], steps])
+    pool = _pool()
     nproc = max(1, min(12, (os.cpu_count() or 2) - 2))
     chunk = max(1, (len(part) + nproc * 4 - 1) // (nproc * 4))
-    jobs = [(base, part[i:i + chunk]) for i in range(0, len(part), chunk)]
+    jobs = [(job_base, part[i:i + chunk]) for i in range(0, len(part), chunk)]
     ran, bad = 0, []
-    if jobs:
-        with multiprocessing.get_context('fork').Pool(nproc) as pool:
-            for n, b in pool.imap_unordered(_batch_worker, jobs):
-                ran += n
-                bad.extend(b)
+    for n, b in pool.imap_unordered(_batch_worker, jobs):
+        ran += n
+        bad.extend(b)
     bad.sort()
     if bad:
         BATCH_FAIL[json.dumps(case, sort_keys=True)] = dict(base, start=bad[0][0], switches=bad[0][1], reuse=False)
